@@ -415,9 +415,12 @@ Definition nullish (x : item) : bool := match x with Simple 22 | Simple 23 => tr
 Definition shallow_complete (fs : list (bytes * bool)) (x : item) : bool :=
   forallb (fun f : bytes * bool => snd f || (match x with Map ps => has_key ps (fst f) | _ => false end && negb (nullish (fld (fst f) x)))) fs.
 Definition shallow_rules (strict : bool) (cands : list (list (bytes * bool))) (x : item) : list rule :=
-  match find (fun fs => match conf 3 (shallow_schema fs) x with COk => true | _ => false end) cands with
-  | Some fs => [ (if strict then 40 else 140, shallow_complete fs x) ]
-  | None => []
+  (* among the layouts the item's keys fit, one must be complete (a package's message structs may be
+     sub-layouts of one another: Round1P2P {zeroR1} of Round1Broadcast {bigRCommitment, zeroR1}) *)
+  let fits := filter (fun fs => match conf 3 (shallow_schema fs) x with COk => true | _ => false end) cands in
+  match fits with
+  | [] => []
+  | _ => [ (if strict then 40 else 140, existsb (fun fs => shallow_complete fs x) fits) ]
   end.
 
 (* the group of gen/SerdeDtos.dto_groups whose name is the longest prefix of the type name *)
